@@ -16,6 +16,7 @@ inline int key_of(const TC4 &e) { return e.key; }
 inline int key_of(const TC1 &e) { return e.b & 7; }
 inline int key_of(const TC8 &e) { return e.key; }
 inline int key_of(const TC16A &e) { return e.key; }
+inline int key_of(const TC32A &e) { return e.key; }
 inline int key_of(const K1 &e) { return e.k; }
 inline int key_of(const K2 &e) { return e.k; }
 inline int key_of(const TC12 &e) { return e.key; }
@@ -31,6 +32,7 @@ inline unsigned pay_of(const TC1 &e) { return static_cast<unsigned>(e.b >> 3); }
 inline unsigned pay_of(const TC8 &e) { return e.pay; }
 inline unsigned pay_of(const TC12 &e) { return e.pay; }
 inline unsigned pay_of(const TC16A &e) { return e.pay; }
+inline unsigned pay_of(const TC32A &e) { return e.pay; }
 inline unsigned pay_of(const Val &v) { return v.pay; }
 inline unsigned pay_of(const Proto &p) { return p.pay; }
 template <class X>
